@@ -47,6 +47,14 @@ FOCUS = {
        "after an earlier call failed, wrong on the second call). Also consider pairs of equivalent entry points that must "
        "agree (String vs io::Write, *_with_span_info vs plain, document vs fragment, bytes vs str, tokens vs string, map-style "
        "vs node-style, the node itself vs its document as argument) and make exactly ONE of a pair go wrong.",
+    7: "ROUND 7. Two directions. (1) Public API surface that none of the existing changes touches: list the public functions, "
+       "trait impls and parameters in the property's area (including rarely used ones: *_mut accessors of single nodes, "
+       "iterator adaptors, Default / Clone / PartialEq impls, conversion helpers, with_* builders, error conversions) and "
+       "pick ones that no listed change has modified. (2) Interplay: a defect that needs THREE OR MORE calls, or calls from two "
+       "different areas of the library, to show - for example serialise after deduplicate after clone, parse into a Xot on "
+       "which html5() was called, remove_insignificant_whitespace followed by a move, a repair call followed by a second "
+       "repair call, an accessor used while a mutable view of another element is alive earlier in the history. The change "
+       "itself must still be a small, plausible slip in ONE place.",
 }
 for pid in want:
     wt = "/tmp/wt%d-%s" % (rnd, pid)
